@@ -44,7 +44,7 @@ manifest = {
         }
         for pid, c in sorted(CHECKS.items())
     ],
-    "notes": "Technique family: static analysis. Every check reads /repo's working tree on each run, never imports or executes python-pest, and reports a construct (file::function, path, call chain, table entry). Exit 0 = held (KNOWN-FINDING lines for recorded defects), 1 = VIOLATION, 2 = ANALYSIS-ERROR. Known findings: /verif/known_findings.json.",
+    "notes": "Technique family: static analysis. Every check reads /repo's working tree on each run and reports a construct (file::function, path, call chain, table entry, or the model point a fragment fails on). python-pest is never imported and no generated parser is run; fragments of its source are evaluated from their syntax trees by the checker's own evaluator on finite model domains (DESIGN §13 says exactly what, and which structural rules remain as second opinions), and pattern constants the fragments compile are compiled by the regex engine the repository imports. Exit 0 = held (KNOWN-FINDING lines for recorded defects), 1 = VIOLATION, 2 = ANALYSIS-ERROR (undecided: an unsupported construct, a vanished anchor, a may-raise site no model reaches). Known findings: /verif/known_findings.json. Seeded changes: /verif/seeded (breaking), /verif/refactors (behaviour-preserving); both are run by every thorough tier.",
     "not_applicable": [{"property_id": k, "reason": v} for k, v in sorted(NOT_APPLICABLE.items())],
 }
 Path("MANIFEST.json").write_text(json.dumps(manifest, indent=1) + "\n")
